@@ -97,6 +97,14 @@ void state_touch(struct snapraid_state* state)
 					/* LCOV_EXCL_STOP */
 				}
 
+				/* if the file was modified after the last sync and it already has */
+				/* a sub-second timestamp, there is nothing to set, and the next sync */
+				/* will take care of the change */
+				if (STAT_NSEC(&st) != 0 && STAT_NSEC(&st) != STAT_NSEC_INVALID) {
+					close(f);
+					continue;
+				}
+
 				/* set the tweaked modification time, with new nano seconds */
 				ret = fmtime(f, st.st_mtime, nsec);
 				if (ret != 0) {
